@@ -226,6 +226,8 @@ func (r DenseInt64Vector) MdotV(a ConstMatrix, b ConstVector) Vector {
     panic("matrix/vector dimensions do not match!")
   }
   if n == 0 || m == 0 {
+    // empty sums
+    r.Reset()
     return r
   }
   if r.AT(0) == b.ConstAt(0) {
@@ -247,6 +249,8 @@ func (r DenseInt64Vector) MDOTV(a *DenseInt64Matrix, b DenseInt64Vector) Vector 
     panic("matrix/vector dimensions do not match!")
   }
   if n == 0 || m == 0 {
+    // empty sums
+    r.Reset()
     return r
   }
   if r.AT(0) == b.AT(0) {
@@ -270,6 +274,8 @@ func (r DenseInt64Vector) VdotM(a ConstVector, b ConstMatrix) Vector {
     panic("matrix/vector dimensions do not match!")
   }
   if n == 0 || m == 0 {
+    // empty sums
+    r.Reset()
     return r
   }
   if r.AT(0) == a.ConstAt(0) {
@@ -291,6 +297,8 @@ func (r DenseInt64Vector) VDOTM(a DenseInt64Vector, b *DenseInt64Matrix) Vector 
     panic("matrix/vector dimensions do not match!")
   }
   if n == 0 || m == 0 {
+    // empty sums
+    r.Reset()
     return r
   }
   if r.AT(0) == a.ConstAt(0) {
